@@ -232,11 +232,11 @@ fn wide<T: KInt, const CAP: usize, S: Src>(s: &mut S, k: usize) -> (usize, Optio
     (len, T::whole(h), buf)
 }
 
-/// neighbourhood strings with a *concrete* layout (sign: 0 none, 1 '-', 2 '+'; `lead`: one extra
-/// symbolic leading digit): the first `m.len() - d` digits of `m` (the decimal digits of the type's
-/// MAX, which MIN shares up to the last digit), then `d` symbolic digits; whole-string parsing of that,
-/// and prefix parsing of that string continued by one symbolic ASCII byte.
-fn near_one<T: KInt, const CAP: usize, S: Src>(s: &mut S, sign: usize, lead: bool, m: &[u8], d: usize) -> (usize, Option<T>, [u8; CAP]) {
+/// neighbourhood strings with a *concrete* layout (sign: 0 none, 1 '-', 2 '+'; lead: 0 none, else
+/// that extra leading digit): the first `m.len() - d` digits of `m` (the decimal digits of the type's
+/// MAX, which MIN shares up to the last digit), then `d` symbolic digits.  Returns the buffer, the
+/// length, with one more symbolic ASCII byte stored behind the end (for prefix parsing).
+fn near_str<const CAP: usize, S: Src>(s: &mut S, sign: usize, lead: u8, m: &[u8], d: usize) -> ([u8; CAP], usize) {
     let mut buf = [0u8; CAP];
     let mut n = 0;
     if sign == 1 {
@@ -246,10 +246,8 @@ fn near_one<T: KInt, const CAP: usize, S: Src>(s: &mut S, sign: usize, lead: boo
         buf[n] = b'+';
         n += 1;
     }
-    if lead {
-        let b = s.u8();
-        s.assume(is_digit(b));
-        buf[n] = b;
+    if lead != 0 {
+        buf[n] = lead;
         n += 1;
     }
     let mut i = 0;
@@ -269,30 +267,48 @@ fn near_one<T: KInt, const CAP: usize, S: Src>(s: &mut S, sign: usize, lead: boo
     let tail = s.u8();
     s.assume(tail < 0x80);
     buf[n] = tail;
+    (buf, n)
+}
+
+fn near_one<T: KInt, const CAP: usize, S: Src>(s: &mut S, sign: usize, lead: u8, m: &[u8], d: usize) -> (usize, Option<T>, [u8; CAP]) {
+    let (buf, n) = near_str::<CAP, S>(s, sign, lead, m, d);
     let h = ascii_str(&buf[..n]);
     check_whole::<T, _>(s, h);
-    let _ = check_prefix::<T, _>(s, ascii_str(&buf[..n + 1]));
     (n, T::whole(h), buf)
 }
 
-/// all six layouts (3 signs x with/without an extra leading digit), each explored with constant positions
+/// nine layouts (3 signs x {no extra digit, leading '0', leading '1'}), each explored with constant positions
 fn near<T: KInt, const CAP: usize, S: Src>(s: &mut S, m: &[u8], d: usize) -> (usize, Option<T>, [u8; CAP]) {
-    match s.upto(5) {
-        0 => near_one::<T, CAP, S>(s, 0, false, m, d),
-        1 => near_one::<T, CAP, S>(s, 1, false, m, d),
-        2 => near_one::<T, CAP, S>(s, 2, false, m, d),
-        3 => near_one::<T, CAP, S>(s, 0, true, m, d),
-        4 => near_one::<T, CAP, S>(s, 1, true, m, d),
-        _ => near_one::<T, CAP, S>(s, 2, true, m, d),
+    match s.upto(8) {
+        0 => near_one::<T, CAP, S>(s, 0, 0, m, d),
+        1 => near_one::<T, CAP, S>(s, 1, 0, m, d),
+        2 => near_one::<T, CAP, S>(s, 2, 0, m, d),
+        3 => near_one::<T, CAP, S>(s, 0, b'0', m, d),
+        4 => near_one::<T, CAP, S>(s, 1, b'0', m, d),
+        5 => near_one::<T, CAP, S>(s, 2, b'0', m, d),
+        6 => near_one::<T, CAP, S>(s, 0, b'1', m, d),
+        7 => near_one::<T, CAP, S>(s, 1, b'1', m, d),
+        _ => near_one::<T, CAP, S>(s, 2, b'1', m, d),
+    }
+}
+
+/// prefix parsing of a neighbourhood string (sign none or '-', no extra digit) continued by one symbolic ASCII byte
+fn near_prefix<T: KInt, const CAP: usize, S: Src>(s: &mut S, m: &[u8], d: usize) -> (usize, Option<T>) {
+    if s.bool() {
+        let (buf, n) = near_str::<CAP, S>(s, 1, 0, m, d);
+        check_prefix::<T, _>(s, ascii_str(&buf[..n + 1]))
+    } else {
+        let (buf, n) = near_str::<CAP, S>(s, 0, 0, m, d);
+        check_prefix::<T, _>(s, ascii_str(&buf[..n + 1]))
     }
 }
 
 harness! {
-    /// kind=bounded tier=quick bound="u32: sign in {none,'-','+'}, optional extra leading digit, the first 6 digits of u32::MAX, 4 symbolic digits; prefix parsing with one more symbolic ASCII byte"
+    /// kind=bounded tier=quick bound="u32: sign in {none,'-','+'}, optional extra leading '0' or '1', the first 7 digits of u32::MAX, 3 symbolic digits"
     #[kani::unwind(16)]
     #[kani::stub(konst_kernel::string::non_char_boundary_panic, crate::hlib::stub_non_char_boundary_panic)]
     fn c12_near_u32(s) {
-        let (len, r, buf) = near::<u32, 14, _>(s, b"4294967295", 4);
+        let (len, r, buf) = near::<u32, 14, _>(s, b"4294967295", 3);
         cov!(s, r == Some(u32::MAX) && len == 10, "C12.cover.u32_near_max");
         cov!(s, r == Some(u32::MAX) && len == 11, "C12.cover.u32_near_max_leading_zero");
         cov!(s, r == Some(u32::MAX - 2), "C12.cover.u32_near_max_minus_2");
@@ -327,11 +343,11 @@ harness! {
 }
 
 harness! {
-    /// kind=bounded tier=quick bound="i32: sign in {none,'-','+'}, optional extra leading digit, the first 6 digits of i32::MAX, 4 symbolic digits; prefix parsing with one more symbolic ASCII byte"
+    /// kind=bounded tier=quick bound="i32: sign in {none,'-','+'}, optional extra leading '0' or '1', the first 7 digits of i32::MAX, 3 symbolic digits"
     #[kani::unwind(16)]
     #[kani::stub(konst_kernel::string::non_char_boundary_panic, crate::hlib::stub_non_char_boundary_panic)]
     fn c12_near_i32(s) {
-        let (len, r, buf) = near::<i32, 14, _>(s, b"2147483647", 4);
+        let (len, r, buf) = near::<i32, 14, _>(s, b"2147483647", 3);
         cov!(s, r == Some(i32::MAX) && len == 10, "C12.cover.i32_near_max");
         cov!(s, r == Some(i32::MAX) && len == 11, "C12.cover.i32_near_max_leading_zero");
         cov!(s, r == Some(i32::MAX - 2), "C12.cover.i32_near_max_minus_2");
@@ -372,11 +388,11 @@ harness! {
 }
 
 harness! {
-    /// kind=bounded tier=quick bound="u64: sign in {none,'-','+'}, optional extra leading digit, the first 16 digits of u64::MAX, 4 symbolic digits; prefix parsing with one more symbolic ASCII byte"
+    /// kind=bounded tier=quick bound="u64: sign in {none,'-','+'}, optional extra leading '0' or '1', the first 17 digits of u64::MAX, 3 symbolic digits"
     #[kani::unwind(26)]
     #[kani::stub(konst_kernel::string::non_char_boundary_panic, crate::hlib::stub_non_char_boundary_panic)]
     fn c12_near_u64(s) {
-        let (len, r, buf) = near::<u64, 24, _>(s, b"18446744073709551615", 4);
+        let (len, r, buf) = near::<u64, 24, _>(s, b"18446744073709551615", 3);
         cov!(s, r == Some(u64::MAX) && len == 20, "C12.cover.u64_near_max");
         cov!(s, r == Some(u64::MAX) && len == 21, "C12.cover.u64_near_max_leading_zero");
         cov!(s, r == Some(u64::MAX - 2), "C12.cover.u64_near_max_minus_2");
@@ -411,11 +427,11 @@ harness! {
 }
 
 harness! {
-    /// kind=bounded tier=quick bound="i64: sign in {none,'-','+'}, optional extra leading digit, the first 15 digits of i64::MAX, 4 symbolic digits; prefix parsing with one more symbolic ASCII byte"
+    /// kind=bounded tier=quick bound="i64: sign in {none,'-','+'}, optional extra leading '0' or '1', the first 16 digits of i64::MAX, 3 symbolic digits"
     #[kani::unwind(25)]
     #[kani::stub(konst_kernel::string::non_char_boundary_panic, crate::hlib::stub_non_char_boundary_panic)]
     fn c12_near_i64(s) {
-        let (len, r, buf) = near::<i64, 23, _>(s, b"9223372036854775807", 4);
+        let (len, r, buf) = near::<i64, 23, _>(s, b"9223372036854775807", 3);
         cov!(s, r == Some(i64::MAX) && len == 19, "C12.cover.i64_near_max");
         cov!(s, r == Some(i64::MAX) && len == 20, "C12.cover.i64_near_max_leading_zero");
         cov!(s, r == Some(i64::MAX - 2), "C12.cover.i64_near_max_minus_2");
@@ -456,11 +472,11 @@ harness! {
 }
 
 harness! {
-    /// kind=bounded tier=quick bound="u128: sign in {none,'-','+'}, optional extra leading digit, the first 35 digits of u128::MAX, 4 symbolic digits; prefix parsing with one more symbolic ASCII byte"
+    /// kind=bounded tier=quick bound="u128: sign in {none,'-','+'}, optional extra leading '0' or '1', the first 36 digits of u128::MAX, 3 symbolic digits"
     #[kani::unwind(45)]
     #[kani::stub(konst_kernel::string::non_char_boundary_panic, crate::hlib::stub_non_char_boundary_panic)]
     fn c12_near_u128(s) {
-        let (len, r, buf) = near::<u128, 43, _>(s, b"340282366920938463463374607431768211455", 4);
+        let (len, r, buf) = near::<u128, 43, _>(s, b"340282366920938463463374607431768211455", 3);
         cov!(s, r == Some(u128::MAX) && len == 39, "C12.cover.u128_near_max");
         cov!(s, r == Some(u128::MAX) && len == 40, "C12.cover.u128_near_max_leading_zero");
         cov!(s, r == Some(u128::MAX - 2), "C12.cover.u128_near_max_minus_2");
@@ -495,11 +511,11 @@ harness! {
 }
 
 harness! {
-    /// kind=bounded tier=quick bound="i128: sign in {none,'-','+'}, optional extra leading digit, the first 35 digits of i128::MAX, 4 symbolic digits; prefix parsing with one more symbolic ASCII byte"
+    /// kind=bounded tier=quick bound="i128: sign in {none,'-','+'}, optional extra leading '0' or '1', the first 36 digits of i128::MAX, 3 symbolic digits"
     #[kani::unwind(45)]
     #[kani::stub(konst_kernel::string::non_char_boundary_panic, crate::hlib::stub_non_char_boundary_panic)]
     fn c12_near_i128(s) {
-        let (len, r, buf) = near::<i128, 43, _>(s, b"170141183460469231731687303715884105727", 4);
+        let (len, r, buf) = near::<i128, 43, _>(s, b"170141183460469231731687303715884105727", 3);
         cov!(s, r == Some(i128::MAX) && len == 39, "C12.cover.i128_near_max");
         cov!(s, r == Some(i128::MAX) && len == 40, "C12.cover.i128_near_max_leading_zero");
         cov!(s, r == Some(i128::MAX - 2), "C12.cover.i128_near_max_minus_2");
@@ -540,11 +556,11 @@ harness! {
 }
 
 harness! {
-    /// kind=bounded tier=quick bound="usize: sign in {none,'-','+'}, optional extra leading digit, the first 16 digits of usize::MAX, 4 symbolic digits; prefix parsing with one more symbolic ASCII byte"
+    /// kind=bounded tier=quick bound="usize: sign in {none,'-','+'}, optional extra leading '0' or '1', the first 17 digits of usize::MAX, 3 symbolic digits"
     #[kani::unwind(26)]
     #[kani::stub(konst_kernel::string::non_char_boundary_panic, crate::hlib::stub_non_char_boundary_panic)]
     fn c12_near_usize(s) {
-        let (len, r, buf) = near::<usize, 24, _>(s, b"18446744073709551615", 4);
+        let (len, r, buf) = near::<usize, 24, _>(s, b"18446744073709551615", 3);
         cov!(s, r == Some(usize::MAX) && len == 20, "C12.cover.usize_near_max");
         cov!(s, r == Some(usize::MAX) && len == 21, "C12.cover.usize_near_max_leading_zero");
         cov!(s, r == Some(usize::MAX - 2), "C12.cover.usize_near_max_minus_2");
@@ -579,11 +595,11 @@ harness! {
 }
 
 harness! {
-    /// kind=bounded tier=quick bound="isize: sign in {none,'-','+'}, optional extra leading digit, the first 15 digits of isize::MAX, 4 symbolic digits; prefix parsing with one more symbolic ASCII byte"
+    /// kind=bounded tier=quick bound="isize: sign in {none,'-','+'}, optional extra leading '0' or '1', the first 16 digits of isize::MAX, 3 symbolic digits"
     #[kani::unwind(25)]
     #[kani::stub(konst_kernel::string::non_char_boundary_panic, crate::hlib::stub_non_char_boundary_panic)]
     fn c12_near_isize(s) {
-        let (len, r, buf) = near::<isize, 23, _>(s, b"9223372036854775807", 4);
+        let (len, r, buf) = near::<isize, 23, _>(s, b"9223372036854775807", 3);
         cov!(s, r == Some(isize::MAX) && len == 19, "C12.cover.isize_near_max");
         cov!(s, r == Some(isize::MAX) && len == 20, "C12.cover.isize_near_max_leading_zero");
         cov!(s, r == Some(isize::MAX - 2), "C12.cover.isize_near_max_minus_2");
@@ -620,6 +636,114 @@ harness! {
         cov!(s, r == Some(isize::MAX), "C12.cover.isize_max_leading_zero");
         cov!(s, r.is_none() && len == 20 && buf[0] == b'1', "C12.cover.isize_extra_digit_overflow");
         cov!(s, r == Some(isize::MIN), "C12.cover.isize_min_leading_zero");
+    }
+}
+
+harness! {
+    /// kind=bounded tier=quick bound="u32 prefix parsing: sign none or '-', the first 7 digits of u32::MAX, 3 symbolic digits, then one symbolic ASCII byte"
+    #[kani::unwind(16)]
+    #[kani::stub(konst_kernel::string::non_char_boundary_panic, crate::hlib::stub_non_char_boundary_panic)]
+    fn c12_prefix_near_u32(s) {
+        let (n, e) = near_prefix::<u32, 14, _>(s, b"4294967295", 3);
+        cov!(s, n == 10 && e == Some(u32::MAX), "C12.cover.prefix_u32_max_then_byte");
+        cov!(s, n == 11 && e.is_none(), "C12.cover.prefix_u32_tail_digit_overflows");
+        cov!(s, n == 10 && e.is_none(), "C12.cover.prefix_u32_overflow");
+        cov!(s, n == 0, "C12.cover.prefix_u32_minus_rejected");
+    }
+}
+
+harness! {
+    /// kind=bounded tier=quick bound="i32 prefix parsing: sign none or '-', the first 7 digits of i32::MAX, 3 symbolic digits, then one symbolic ASCII byte"
+    #[kani::unwind(16)]
+    #[kani::stub(konst_kernel::string::non_char_boundary_panic, crate::hlib::stub_non_char_boundary_panic)]
+    fn c12_prefix_near_i32(s) {
+        let (n, e) = near_prefix::<i32, 14, _>(s, b"2147483647", 3);
+        cov!(s, n == 10 && e == Some(i32::MAX), "C12.cover.prefix_i32_max_then_byte");
+        cov!(s, n == 11 && e.is_none(), "C12.cover.prefix_i32_tail_digit_overflows");
+        cov!(s, n == 10 && e.is_none(), "C12.cover.prefix_i32_overflow");
+        cov!(s, n == 11 && e == Some(i32::MIN), "C12.cover.prefix_i32_min_then_byte");
+        cov!(s, n == 11 && e.is_none(), "C12.cover.prefix_i32_below_min");
+    }
+}
+
+harness! {
+    /// kind=bounded tier=quick bound="u64 prefix parsing: sign none or '-', the first 17 digits of u64::MAX, 3 symbolic digits, then one symbolic ASCII byte"
+    #[kani::unwind(26)]
+    #[kani::stub(konst_kernel::string::non_char_boundary_panic, crate::hlib::stub_non_char_boundary_panic)]
+    fn c12_prefix_near_u64(s) {
+        let (n, e) = near_prefix::<u64, 24, _>(s, b"18446744073709551615", 3);
+        cov!(s, n == 20 && e == Some(u64::MAX), "C12.cover.prefix_u64_max_then_byte");
+        cov!(s, n == 21 && e.is_none(), "C12.cover.prefix_u64_tail_digit_overflows");
+        cov!(s, n == 20 && e.is_none(), "C12.cover.prefix_u64_overflow");
+        cov!(s, n == 0, "C12.cover.prefix_u64_minus_rejected");
+    }
+}
+
+harness! {
+    /// kind=bounded tier=quick bound="i64 prefix parsing: sign none or '-', the first 16 digits of i64::MAX, 3 symbolic digits, then one symbolic ASCII byte"
+    #[kani::unwind(25)]
+    #[kani::stub(konst_kernel::string::non_char_boundary_panic, crate::hlib::stub_non_char_boundary_panic)]
+    fn c12_prefix_near_i64(s) {
+        let (n, e) = near_prefix::<i64, 23, _>(s, b"9223372036854775807", 3);
+        cov!(s, n == 19 && e == Some(i64::MAX), "C12.cover.prefix_i64_max_then_byte");
+        cov!(s, n == 20 && e.is_none(), "C12.cover.prefix_i64_tail_digit_overflows");
+        cov!(s, n == 19 && e.is_none(), "C12.cover.prefix_i64_overflow");
+        cov!(s, n == 20 && e == Some(i64::MIN), "C12.cover.prefix_i64_min_then_byte");
+        cov!(s, n == 20 && e.is_none(), "C12.cover.prefix_i64_below_min");
+    }
+}
+
+harness! {
+    /// kind=bounded tier=quick bound="u128 prefix parsing: sign none or '-', the first 36 digits of u128::MAX, 3 symbolic digits, then one symbolic ASCII byte"
+    #[kani::unwind(45)]
+    #[kani::stub(konst_kernel::string::non_char_boundary_panic, crate::hlib::stub_non_char_boundary_panic)]
+    fn c12_prefix_near_u128(s) {
+        let (n, e) = near_prefix::<u128, 43, _>(s, b"340282366920938463463374607431768211455", 3);
+        cov!(s, n == 39 && e == Some(u128::MAX), "C12.cover.prefix_u128_max_then_byte");
+        cov!(s, n == 40 && e.is_none(), "C12.cover.prefix_u128_tail_digit_overflows");
+        cov!(s, n == 39 && e.is_none(), "C12.cover.prefix_u128_overflow");
+        cov!(s, n == 0, "C12.cover.prefix_u128_minus_rejected");
+    }
+}
+
+harness! {
+    /// kind=bounded tier=quick bound="i128 prefix parsing: sign none or '-', the first 36 digits of i128::MAX, 3 symbolic digits, then one symbolic ASCII byte"
+    #[kani::unwind(45)]
+    #[kani::stub(konst_kernel::string::non_char_boundary_panic, crate::hlib::stub_non_char_boundary_panic)]
+    fn c12_prefix_near_i128(s) {
+        let (n, e) = near_prefix::<i128, 43, _>(s, b"170141183460469231731687303715884105727", 3);
+        cov!(s, n == 39 && e == Some(i128::MAX), "C12.cover.prefix_i128_max_then_byte");
+        cov!(s, n == 40 && e.is_none(), "C12.cover.prefix_i128_tail_digit_overflows");
+        cov!(s, n == 39 && e.is_none(), "C12.cover.prefix_i128_overflow");
+        cov!(s, n == 40 && e == Some(i128::MIN), "C12.cover.prefix_i128_min_then_byte");
+        cov!(s, n == 40 && e.is_none(), "C12.cover.prefix_i128_below_min");
+    }
+}
+
+harness! {
+    /// kind=bounded tier=quick bound="usize prefix parsing: sign none or '-', the first 17 digits of usize::MAX, 3 symbolic digits, then one symbolic ASCII byte"
+    #[kani::unwind(26)]
+    #[kani::stub(konst_kernel::string::non_char_boundary_panic, crate::hlib::stub_non_char_boundary_panic)]
+    fn c12_prefix_near_usize(s) {
+        let (n, e) = near_prefix::<usize, 24, _>(s, b"18446744073709551615", 3);
+        cov!(s, n == 20 && e == Some(usize::MAX), "C12.cover.prefix_usize_max_then_byte");
+        cov!(s, n == 21 && e.is_none(), "C12.cover.prefix_usize_tail_digit_overflows");
+        cov!(s, n == 20 && e.is_none(), "C12.cover.prefix_usize_overflow");
+        cov!(s, n == 0, "C12.cover.prefix_usize_minus_rejected");
+    }
+}
+
+harness! {
+    /// kind=bounded tier=quick bound="isize prefix parsing: sign none or '-', the first 16 digits of isize::MAX, 3 symbolic digits, then one symbolic ASCII byte"
+    #[kani::unwind(25)]
+    #[kani::stub(konst_kernel::string::non_char_boundary_panic, crate::hlib::stub_non_char_boundary_panic)]
+    fn c12_prefix_near_isize(s) {
+        let (n, e) = near_prefix::<isize, 23, _>(s, b"9223372036854775807", 3);
+        cov!(s, n == 19 && e == Some(isize::MAX), "C12.cover.prefix_isize_max_then_byte");
+        cov!(s, n == 20 && e.is_none(), "C12.cover.prefix_isize_tail_digit_overflows");
+        cov!(s, n == 19 && e.is_none(), "C12.cover.prefix_isize_overflow");
+        cov!(s, n == 20 && e == Some(isize::MIN), "C12.cover.prefix_isize_min_then_byte");
+        cov!(s, n == 20 && e.is_none(), "C12.cover.prefix_isize_below_min");
     }
 }
 
